@@ -24,7 +24,7 @@ PROP = dict(
          "next packet, FEC with a two-packet frame_size. Non-trivial = at least one loss followed by at least one reception; distinct = (configuration, pattern).",
     required_labels={"any": {"c09_loss/plc-whole": 50, "c09_loss/plc-in-pieces": 5, "c09_loss/fec-with-lbrr": 20, "c09_loss/reconvergence-checked": 50,
                              "c09_loss/resume-peak-checked": 50, "c09_loss/decay-checked": 5, "c09_loss/fec-aggregate-checked": 3, "c09_loss/burst>=1s": 5, "c09_loss/decay-vs-frozen-checked": 5, "c09_loss/reconvergence-vs-frozen-checked": 50, "c09_loss/fec-vs-frozen-checked": 5, "c09_loss/class:gated-bursts": 20, "c09_loss/fec-level-checked:class0": 50, "c09_loss/fec-level-checked:class1": 15,
-                             "c09_loss/fec-level-checked:class2": 5, "c09_loss/fec-low-frame-count-checked": 50, "c09_loss/fec-aggregate-checked-40-60ms": 15}},
+                             "c09_loss/fec-level-checked:class2": 5, "c09_loss/fec-low-frame-count-checked": 50, "c09_loss/fec-aggregate-checked-40-60ms": 15, "c09_loss/post-loss-packet-vs-frozen-checked": 500}},
     exhaustive_parts={"thorough": ["all 4096 loss patterns over a 12-packet window x 8 configurations (SILK/hybrid/CELT/auto, 2.5-40 ms, mono/stereo, FEC on/off)"],
                       "quick": ["1/64 stratified slice of the pattern x configuration space"]},
     assumptions=["Level bounds (calib/C09.json) were measured on the unchanged tree, whose decoder equals the frozen snapshot; margins >= 2x.",
